@@ -37,11 +37,21 @@ _built = {}
 _build_lock = threading.Lock()
 
 
+def _link_repo():
+    link = os.path.join(HARNESS, "repo_link")
+    if os.path.islink(link) and os.readlink(link) == REPO:
+        return
+    if os.path.islink(link) or os.path.exists(link):
+        os.remove(link)
+    os.symlink(REPO, link)
+
+
 def build_harness(profile="dev"):
     """cargo build of the harness: always compiles the current working tree of /repo."""
     with _build_lock:
         if profile in _built:
             return _built[profile]
+        _link_repo()
         args = ["cargo", "build", "--offline", "--quiet"]
         if profile != "dev":
             args += ["--profile", profile]
